@@ -354,6 +354,58 @@ pub fn total(input: &[u8], q: &QOpt) -> Result<(bool, bool), (String, String)> {
             }
         }
     }
+    // a stream that keeps failing: every call returns (with the error) instead
+    // of polling on. The reader here gives up after 1000 polls, so a parser
+    // that would never return shows up as a count, not as a hang.
+    {
+        use std::cell::Cell;
+        use std::rc::Rc;
+        struct Stuck<'a> {
+            data: &'a [u8],
+            pos: usize,
+            stop: usize,
+            polls: Rc<Cell<usize>>,
+        }
+        impl<'a> std::io::Read for Stuck<'a> {
+            fn read(&mut self, out: &mut [u8]) -> std::io::Result<usize> {
+                if self.pos >= self.stop {
+                    self.polls.set(self.polls.get() + 1);
+                    let kind = if self.polls.get() > 1000 { std::io::ErrorKind::Other } else { std::io::ErrorKind::WouldBlock };
+                    return Err(std::io::Error::new(kind, "stuck"));
+                }
+                match (self.data.get(self.pos), out.first_mut()) {
+                    (Some(b), Some(o)) => {
+                        *o = *b;
+                        self.pos += 1;
+                        Ok(1)
+                    }
+                    _ => Ok(0),
+                }
+            }
+        }
+        for stop in [0usize, input.len() / 2, input.len()] {
+            for datum in [false, true] {
+                let polls = Rc::new(Cell::new(0usize));
+                let r = catch(|| {
+                    let mut p = Parser::from_reader_custom(Stuck { data: input, pos: 0, stop, polls: polls.clone() }, opts);
+                    if datum {
+                        p.next_datum().map(|_| ())
+                    } else {
+                        p.next_value().map(|_| ())
+                    }
+                });
+                if let Err(pm) = r {
+                    return Err((format!("mode=panic msg={} api=stuck-stream", panic_sig(&pm)), format!("reading from a stream that keeps failing panicked: {}", pm)));
+                }
+                if polls.get() > 140 {
+                    return Err((
+                        "mode=no-return api=stuck-stream".into(),
+                        format!("a stream that fails with WouldBlock from offset {} on was polled {} times by one call (it would not return on a stream that never recovers)", stop, polls.get()),
+                    ));
+                }
+            }
+        }
+    }
     Ok((single_atom, had_error))
 }
 
